@@ -245,6 +245,7 @@ type Options struct {
 	TLS     bool   // origin speaks TLS and clients use CONNECT
 	Dir     string // scratch directory (cache dir, CA files)
 	MaxSize int64  // 0 = default
+	CAChain bool   // ca.crt is a chain file (signing CA followed by the root that issued it); clients trust the signing CA
 	Tune    func(cfg *config.Config)
 }
 
@@ -260,23 +261,51 @@ type Env struct {
 	cancel    context.CancelFunc
 }
 
-func genCA(dir string) (certFile, keyFile string, err error) {
+// genCA writes the proxy's CA files. With chain=true ca.crt is a CHAIN file: the signing CA's certificate followed by
+// the certificate of the root that issued it (the key file holds the signing CA's key). rootPEM is what clients trust:
+// the signing CA, the CA the proxy is configured with.
+func genCA(dir string, chain bool) (certFile, keyFile string, rootPEM []byte, err error) {
 	priv, err := ecdsa.GenerateKey(elliptic.P256(), rand.Reader)
 	if err != nil {
-		return "", "", err
+		return "", "", nil, err
 	}
 	serial, _ := rand.Int(rand.Reader, new(big.Int).Lsh(big.NewInt(1), 120))
 	tmpl := x509.Certificate{SerialNumber: serial, Subject: pkix.Name{Organization: []string{"verif-ca"}, CommonName: "verif-ca"},
 		NotBefore: time.Now().Add(-time.Hour), NotAfter: time.Now().Add(24 * time.Hour),
 		KeyUsage: x509.KeyUsageCertSign | x509.KeyUsageDigitalSignature, ExtKeyUsage: []x509.ExtKeyUsage{x509.ExtKeyUsageServerAuth},
 		BasicConstraintsValid: true, IsCA: true}
-	der, err := x509.CreateCertificate(rand.Reader, &tmpl, &tmpl, &priv.PublicKey, priv)
+	parent, parentKey := &tmpl, any(priv)
+	var rootDER []byte
+	if chain {
+		rootPriv, err := ecdsa.GenerateKey(elliptic.P256(), rand.Reader)
+		if err != nil {
+			return "", "", nil, err
+		}
+		rserial, _ := rand.Int(rand.Reader, new(big.Int).Lsh(big.NewInt(1), 120))
+		rootTmpl := x509.Certificate{SerialNumber: rserial, Subject: pkix.Name{Organization: []string{"verif-root"}, CommonName: "verif-root"},
+			NotBefore: time.Now().Add(-2 * time.Hour), NotAfter: time.Now().Add(48 * time.Hour),
+			KeyUsage: x509.KeyUsageCertSign, BasicConstraintsValid: true, IsCA: true}
+		rootDER, err = x509.CreateCertificate(rand.Reader, &rootTmpl, &rootTmpl, &rootPriv.PublicKey, rootPriv)
+		if err != nil {
+			return "", "", nil, err
+		}
+		rootCert, _ := x509.ParseCertificate(rootDER)
+		parent, parentKey = rootCert, any(rootPriv)
+	}
+	der, err := x509.CreateCertificate(rand.Reader, &tmpl, parent, &priv.PublicKey, parentKey)
 	if err != nil {
-		return "", "", err
+		return "", "", nil, err
 	}
 	certFile, keyFile = filepath.Join(dir, "ca.crt"), filepath.Join(dir, "ca.key")
 	var cb, kb bytes.Buffer
 	pem.Encode(&cb, &pem.Block{Type: "CERTIFICATE", Bytes: der})
+	rootPEM = append([]byte{}, cb.Bytes()...)
+	if chain {
+		var rb bytes.Buffer
+		pem.Encode(&rb, &pem.Block{Type: "CERTIFICATE", Bytes: rootDER})
+		cb.Write(rb.Bytes())
+		// clients keep trusting the SIGNING CA (the configured CA): the root is only carried along in the file
+	}
 	pk, _ := x509.MarshalPKCS8PrivateKey(priv)
 	pem.Encode(&kb, &pem.Block{Type: "PRIVATE KEY", Bytes: pk})
 	if err = os.WriteFile(certFile, cb.Bytes(), 0600); err != nil {
@@ -303,8 +332,17 @@ func originCert() (tls.Certificate, *x509.Certificate, error) {
 	return tls.Certificate{Certificate: [][]byte{der}, PrivateKey: priv, Leaf: leaf}, leaf, nil
 }
 
-// Quiet silences reservoir's logging.
-func Quiet() { slog.SetDefault(slog.New(slog.NewTextHandler(io.Discard, nil))) }
+// Quiet silences reservoir's logging (while keeping every level enabled, see DebugDiscard).
+func Quiet() { slog.SetDefault(slog.New(DebugDiscard{})) }
+
+// DebugDiscard is a log handler that is enabled at EVERY level and drops the record: code that only runs when
+// DEBUG logging is on (and the arguments of every log call) is executed, nothing is written.
+type DebugDiscard struct{}
+
+func (DebugDiscard) Enabled(context.Context, slog.Level) bool  { return true }
+func (DebugDiscard) Handle(context.Context, slog.Record) error { return nil }
+func (d DebugDiscard) WithAttrs([]slog.Attr) slog.Handler      { return d }
+func (d DebugDiscard) WithGroup(string) slog.Handler           { return d }
 
 func Start(o Options) (*Env, error) {
 	if o.Dir == "" {
@@ -356,7 +394,7 @@ func Start(o Options) (*Env, error) {
 	}
 	env.Cfg = cfg
 
-	certFile, keyFile, err := genCA(o.Dir)
+	certFile, keyFile, rootPEM, err := genCA(o.Dir, o.CAChain)
 	if err != nil {
 		return nil, err
 	}
@@ -364,8 +402,7 @@ func Start(o Options) (*Env, error) {
 	if err != nil {
 		return nil, err
 	}
-	caPEM, _ := os.ReadFile(certFile)
-	pool.AppendCertsFromPEM(caPEM)
+	pool.AppendCertsFromPEM(rootPEM)
 	env.CAPool = pool
 	env.CA = ca
 	// the proxy's upstream client is http.DefaultClient: let it trust the origin
